@@ -143,6 +143,15 @@ ROUND5 = {
 }
 for _k, _v in ROUND5.items():
     ROUND3[_k] = (ROUND3.get(_k, "") + " " + _v).strip()
+ROUND7 = {
+ 'C02': 'Names of the signing entity and key IDs that are not UTF-8: an error, or an output that verifies under that name.',
+ 'C03': 'Proto-events whose content / type / state key is not UTF-8: Build refuses, or the built event loads.',
+ 'C06': 'Restricted joins whose join_authorised_via_users_server is null or an empty string ask for no further signer.',
+ 'C07': 'Power-levels events with "users": null in room versions 1-9 as well.',
+ 'C13': 'Request URIs with a raw blank in path or query: refused by the builder, or signed so that the request reads back.'
+}
+for _k, _v in ROUND7.items():
+    ROUND3[_k] = (ROUND3.get(_k, "") + " " + _v).strip()
 for _k, _v in ROUND3.items():
     CLAIMS[_k]["note"] = CLAIMS[_k]["note"] + " " + _v
 
